@@ -25,6 +25,16 @@ REGIONS = [
     ("crates/core/src/common/parse.rs", 1, 330),
 ]
 
+# the two families' wrapper layers (thin forwarding code, duplicated per family)
+WRAPPER_REGIONS = [
+    ("crates/core/src/iri/path_mut.rs", 1, 100), ("crates/core/src/uri/path_mut.rs", 1, 100),
+    ("crates/core/src/iri/authority_mut.rs", 1, 60), ("crates/core/src/uri/authority_mut.rs", 1, 60),
+    ("crates/core/src/iri/path.rs", 24, 400), ("crates/core/src/uri/path.rs", 24, 420),
+    ("crates/core/src/iri/reference.rs", 286, 515), ("crates/core/src/uri/reference.rs", 270, 500),
+    ("crates/core/src/iri/mod.rs", 385, 580), ("crates/core/src/uri/mod.rs", 360, 545),
+    ("crates/core/src/common/mod.rs", 1, 50),
+]
+
 OPS = [
     (r"\+= ", "-= "), (r"-= ", "+= "),
     (r" \+ 1\b", " + 0"), (r" - 1\b", " - 0"), (r" \+ 2\b", " + 1"), (r" - 2\b", " - 1"),
@@ -46,9 +56,9 @@ def sh(cmd, cwd=None, env=None, timeout=1200):
     return p.returncode, p.stdout
 
 
-def enumerate_mutants():
+def enumerate_mutants(regions=None):
     muts = []
-    for f, lo, hi in REGIONS:
+    for f, lo, hi in (regions or REGIONS):
         lines = open(os.path.join("/repo", f)).read().split("\n")
         in_tests = False
         for ln in range(lo, min(hi, len(lines)) + 1):
@@ -83,7 +93,7 @@ def main():
             only = a[1]; a = a[2:]
         else:
             a = a[1:]
-    muts = enumerate_mutants()
+    muts = enumerate_mutants(WRAPPER_REGIONS if "--wrappers" in sys.argv else None)
     if only:
         muts = [m for m in muts if only in m["file"]]
     # deterministic spread over the whole list when capped
